@@ -408,6 +408,14 @@ def cases(tier, rng):
                 yield "handle-404", req(kind, iface, 0, "abs", b)
             for b in batches(paths_over(ALPHA, 2)):
                 yield "handle-404", req(kind, iface, 0, "ghost", b)
+    # (b'') the same apps mounted with baize's own Subpaths at MOUNT, a prefix that is also the name of a directory
+    # inside the served tree (iface 4 / 5; seed C07-13): the request path below the mount point is what is resolved —
+    # "/sub/sub/a.txt" is <dir>/sub/a.txt —, the redirect of Pages keeps the prefix
+    mounted = [p for p in tp + paths_over(ALPHA, 3 if tier == "quick" else 4) if p == "" or p.startswith("/")]
+    for kind in (0, 1):
+        for iface in (4, 5):
+            for b in batches(mounted):
+                yield "mounted", req(kind, iface, 0, "abs", b)
     # (c) other spellings of the directory, other layouts
     ex2 = paths_over(ALPHA, 2)
     for dm in ("abs-slash", "abs-dots", "rel-dot", "rel-empty", "rel-name", "rel-dots", "pkg-dots", "pkg-up", "ghost", "sub",
@@ -544,7 +552,10 @@ class Fallback:
         self.app = app
 
 
-def one_call(app, iface, url_path):
+MOUNT = "/sub"
+
+
+def one_call(app, iface, url_path, mount=""):
     """-> (outcome, sorted distinct canonical accessed paths)"""
     from baize.exceptions import HTTPException
     fb = getattr(app, "_c07_fallback", None)
@@ -555,12 +566,12 @@ def one_call(app, iface, url_path):
     _REC[0] = rec
     try:
         if iface == 0:
-            starts, items, exc = util.call_wsgi(app, util.wsgi_environ(path=raw))
+            starts, items, exc = util.call_wsgi(app, util.wsgi_environ(path=mount + raw))
             status = int(starts[-1][0].split()[0]) if starts else None
             headers = {k.lower(): v for k, v in starts[-1][1]} if starts else {}
             body = b"".join(x for _, x in items)
         else:
-            sent, exc = util.call_asgi(app, util.http_scope(path=raw))
+            sent, exc = util.call_asgi(app, util.http_scope(path=mount + raw))
             status, headers, body = None, {}, b""
             for m in sent:
                 if m["type"] == "http.response.start":
@@ -593,7 +604,7 @@ def one_call(app, iface, url_path):
     if status == 307:
         loc = headers.get("location", "")
         sp = urlsplit(loc)
-        want = unquote(url_path + "/", errors="surrogateescape")
+        want = unquote(mount + url_path + "/", errors="surrogateescape")
         if (sp.scheme == "" and sp.netloc == "testserver" and sp.query == "" and sp.fragment == ""
                 and unquote(sp.path, errors="surrogateescape") == want and body == b""):
             return ["307", raw + "/"], acc
@@ -609,7 +620,8 @@ def impl(case):
     if case[0] == "path":
         return impl_path(case)
     _, kind, iface, li, dm, paths = case
-    with_fallback, iface = iface >= 2, iface % 2     # iface 2 / 3: WSGI / ASGI with handle_404 configured
+    # iface 2 / 3: WSGI / ASGI with handle_404 configured; 4 / 5: mounted with Subpaths at MOUNT
+    with_fallback, mount, iface = iface in (2, 3), (MOUNT if iface >= 4 else ""), iface % 2
     L = _LAYOUTS[li]
     cwd, directory, pkg = L.dmode(dm, _BASE)
     os.chdir(cwd)
@@ -627,11 +639,19 @@ def impl(case):
     if fb:
         app._c07_fallback = fb
     out = [[canon(app.directory)]]
+    target = app
+    if mount:
+        if iface == 0:
+            from baize.wsgi import Subpaths
+        else:
+            from baize.asgi import Subpaths
+        target = Subpaths((mount, app))
+        target._c07_fallback = None
     for p in paths:
-        o, acc = one_call(app, iface, p)
+        o, acc = one_call(target, iface, p, mount)
         follow = []
         if o[0] == "307":
-            o2, acc2 = one_call(app, iface, p + "/")
+            o2, acc2 = one_call(target, iface, p + "/", mount)
             follow = [o2, acc2]
         out.append([o, acc, follow])
     return out
